@@ -93,7 +93,8 @@ def judge_text(text, mtime=None):
         raise common.HarnessFault(f"generator produced text the reference rejects: {e}: {text[:200]!r}")
     msgs = []
     try:
-        got = impl_commands(text)
+        # (decoding, a byte order mark included, is the Documenter's business: the public parser gets the text without it)
+        got = impl_commands(text[1:] if text.startswith("\ufeff") else text)
     except BaseException as e:
         if isinstance(e, (KeyboardInterrupt, MemoryError)):
             raise
@@ -234,6 +235,14 @@ def keyword_tail_files():
         for doc in ("", d):
             out.append((f"option({args})", f"{doc}option({args})\n"))
     return out
+
+
+def bom_files():
+    """files that start with a UTF-8 byte order mark (CMake accepts and ignores it)"""
+    d = "#[[[\n# doc\n#]]\n"
+    bodies = ["set(A 1)\n", d + "function(f a)\nendfunction()\n", "# comment first\nset(A 1)\n", "#[[[ @module m\n# text\n#]]\nset(A 1)\n",
+              "\nset(A 1)\n", "cmake_minimum_required(VERSION 3.20)\ninclude_guard()\n" + d + "option(O \"h\" ON)\n", ""]
+    return [(f"byte order mark + {b[:30]!r}", "\ufeff" + b) for b in bodies]
 
 
 def named_end_files():
@@ -553,6 +562,7 @@ def run(ctx):
     ctx.sweep(check_file, boundary_files(), space="multi-byte characters at buffer boundaries", selftest=2)
     ctx.sweep(check_file, redefinition_files(), space="a name defined more than once", selftest=2)
     ctx.sweep(check_file, named_end_files(), space="named end commands", selftest=2)
+    ctx.sweep(check_file, bom_files(), space="files starting with a byte order mark", selftest=1)
     ctx.sweep(check_file, keyword_tail_files(), space="variable references where literal keyword values are usual", selftest=2)
     ctx.sweep(check_file, doc_shape_files(), space="doccomment shapes x command kinds", selftest=2)
     ctx.sweep(check_def_params, [l for l in LEX if not l.startswith("(")], space="definition parameters x lexemes", selftest=2)
